@@ -58,7 +58,21 @@ def run(case):
     client.post("/agents", json={}, headers=OK)
     client.post("/%s/run-steps" % u, json={"numberSteps": 1}, headers=OK)
     n3, bad = sweep(app, client, u, "after failing authorised requests")
-    return n + n2 + n3, bad
+    if bad:
+        return n + n2 + n3, bad
+    # an authorised stream is in progress (the instance is locked) while the refused requests arrive
+    u2 = start(client, OK); begin(client, u2, OK)
+    r = client.post("/%s/stream-steps" % u2, json={"settings": {}}, headers=OK, buffered=False)
+    it = iter(r.response)
+    try:
+        next(it); next(it)
+    except StopIteration:
+        pass
+    try:
+        n4, bad = sweep(app, client, u2, "stream in progress")
+    finally:
+        r.close()
+    return n + n2 + n3 + n4, bad
 '''
 exec(BODY)
 
